@@ -14,7 +14,7 @@ def main(argv):
     parts_multi.run_ho(rep, PID, rep.tier == 'thorough')
     # the unicast subject (groups of GroupBy, windows of WindowWhen) is the other place where values wait: a value published while a subscriber
     # is being served its backlog is delivered, in order, by the time its Next returns (linearizability, SubjectLin.tla, park mode)
-    parts_subject.lin_part(rep, PID, 40 if rep.tier == 'thorough' else 12, [rep.seed * 100 + 60], park=True, kind='unicast')
+    parts_subject.lin_part(rep, PID, 40 if rep.tier == 'thorough' else 20, [rep.seed * 100 + 60, rep.seed * 100 + 61], park=True, kind='unicast')
     # under CONTENTION too the operators deliver on the caller's goroutine: two producers, one parked at every lock boundary in turn; when a call returns, the
     # outputs its arrival gave rise to (in the arrival order TLC found) have reached the observer (MultiLin.tla, SyncRet clause)
     parts_multilin.sync_part(rep, PID, 60 if rep.tier == 'thorough' else 15, [rep.seed * 100 + 70 + i for i in range(3 if rep.tier == 'thorough' else 1)])
